@@ -571,6 +571,8 @@ def run(res, tier, seed, replay):
             "Slice<T>)",
             "C++ push_back grows the capacity to exactly size + 1 (every push reallocates and copies: quadratic), "
             "unlike Rust push (amortised doubling); modelled as such",
-            "C++ DependencyProvider cannot express Dependencies::Unknown"],
+            "C++ DependencyProvider cannot express Dependencies::Unknown",
+            "resolvo.h documents that after an unsuccessful solve `the result vector will be empty`; resolvo_solve "
+            "leaves a non-empty result vector passed by the caller untouched"],
     })
     return res.finish(CHECKER, vlib.TRUSTED_BASE, assumptions)
